@@ -106,6 +106,10 @@ var zzFaultScripts = []string{
 	"foreach v in i { return v; }",
 	"return keys(i);",
 	"return i ** j;",
+	"function f(p) { panic(p); } return f(i);",
+	"function f(p) { return p % j; } function g(p) { return f(p) + 1; } return g(i);",
+	"function f(p) { foreach v in [1, 2] { if (p > 5) { panic(\"big\"); } } return p; } return f(i);",
+	"function f(p) { return nosuch(p); } foreach v in [1, 2] { f(v + i); } return 3;",
 }
 
 // ZZ_C08_RuntimeFaults: run-time faults inside the script (bad indexes,
@@ -159,6 +163,7 @@ func ZZ_C08_RuntimeFaults(sv *zzsv.T) {
 			small(el.i)
 		}
 	}
+	usable := true
 	ok := zzNoPanic(func() {
 		e := New(src)
 		e.SetVariable("i", &object.Integer{Value: i})
@@ -175,12 +180,29 @@ func ZZ_C08_RuntimeFaults(sv *zzsv.T) {
 		}
 		_, rerr := e.Run(nil)
 		sv.Observe("run", rerr != nil)
-		// usable afterwards
+		// usable afterwards: with benign operands the used evaluator behaves
+		// like a freshly prepared one
 		e.SetVariable("i", &object.Integer{Value: 1})
 		e.SetVariable("j", &object.Integer{Value: 2})
-		_, _ = e.Run(nil)
+		e.SetVariable("t", &object.Integer{Value: 0})
+		e.SetVariable("x", &object.Null{})
+		o1, err1 := e.Execute(nil)
+		f := New(src)
+		f.SetVariable("i", &object.Integer{Value: 1})
+		f.SetVariable("j", &object.Integer{Value: 2})
+		f.SetVariable("a", a.obj())
+		f.SetVariable("t", &object.Integer{Value: 0})
+		if f.Prepare() != nil {
+			return
+		}
+		o2, err2 := f.Execute(nil)
+		sv.Observe("after", err1 != nil, err2 != nil)
+		usable = (err1 != nil) == (err2 != nil) && (err1 != nil || zzSameObj(sv, o1, o2))
 	})
 	sv.Assert("C08.fault.nopanic", ok)
+	if src != "a++; return a;" {
+		sv.Assert("C08.fault.usable_afterwards", usable)
+	}
 }
 
 type zzC08Inner struct{ X int }
